@@ -1,9 +1,417 @@
 package main
 
+// Engine part of C17: an execution engine is built over the schema (no data source besides the
+// built-in introspection one), introspection operations are executed, and `data` is compared with
+// the projection of the Generator's own JSON through the same operation.  The projection is a
+// direct reading of the GraphQL spec for the introspection fields: selection by response name,
+// lists element-wise, null stays null, absent (omitempty) members read as null,
+// fields/enumValues/inputFields/args drop deprecated elements unless includeDeprecated is true.
+
 import (
+	"context"
+	"encoding/json"
+	"fmt"
+	"reflect"
+	"strings"
+
+	"github.com/jensneuse/abstractlogger"
+
 	"gvh/common"
+
+	"github.com/wundergraph/graphql-go-tools/execution/engine"
+	"github.com/wundergraph/graphql-go-tools/execution/graphql"
+	"github.com/wundergraph/graphql-go-tools/v2/pkg/engine/resolve"
 )
 
-func engineCheck(sdl string, res *result, r *common.Rand) string {
-	return common.L("skipped", common.QS("todo"))
+// selection tree; Inc: nil = no includeDeprecated argument, otherwise its value; IncVar: pass it as variable
+type sel struct {
+	Name   string
+	Alias  string
+	Inc    *bool
+	IncVar bool
+	Arg    string // literal argument text for __type(name: "...")
+	Frag   string // when set: a fragment spread of that name (Name empty)
+	Sub    []sel
+}
+
+type operation struct {
+	Root  []sel
+	Frags map[string][]sel // all on __Type / __InputValue; type condition taken from fragTypes
+	Vars  map[string]bool
+}
+
+var fragTypes = map[string]string{"FullType": "__Type", "InputValue": "__InputValue", "TypeRef": "__Type"}
+
+func bp(b bool) *bool { return &b }
+
+func typeRefSel(depth int) []sel {
+	s := []sel{{Name: "kind"}, {Name: "name"}}
+	if depth > 0 {
+		s = append(s, sel{Name: "ofType", Sub: typeRefSel(depth - 1)})
+	}
+	return s
+}
+
+// the standard introspection query; inc = value of every includeDeprecated argument (nil: omitted)
+func fullQuery(inc *bool, asVar bool, typenames bool) *operation {
+	tn := func(s []sel) []sel {
+		if typenames {
+			return append([]sel{{Name: "__typename"}}, s...)
+		}
+		return s
+	}
+	inputValue := tn([]sel{{Name: "name"}, {Name: "description"}, {Name: "type", Sub: []sel{{Frag: "TypeRef"}}}, {Name: "defaultValue"}, {Name: "isDeprecated"}, {Name: "deprecationReason"}})
+	fullType := tn([]sel{{Name: "kind"}, {Name: "name"}, {Name: "description"}, {Name: "specifiedByURL"},
+		{Name: "fields", Inc: inc, IncVar: asVar, Sub: tn([]sel{{Name: "name"}, {Name: "description"},
+			{Name: "args", Inc: inc, IncVar: asVar, Sub: []sel{{Frag: "InputValue"}}},
+			{Name: "type", Sub: []sel{{Frag: "TypeRef"}}}, {Name: "isDeprecated"}, {Name: "deprecationReason"}})},
+		{Name: "inputFields", Inc: inc, IncVar: asVar, Sub: []sel{{Frag: "InputValue"}}},
+		{Name: "interfaces", Sub: []sel{{Frag: "TypeRef"}}},
+		{Name: "enumValues", Inc: inc, IncVar: asVar, Sub: tn([]sel{{Name: "name"}, {Name: "description"}, {Name: "isDeprecated"}, {Name: "deprecationReason"}})},
+		{Name: "possibleTypes", Sub: []sel{{Frag: "TypeRef"}}}})
+	op := &operation{Frags: map[string][]sel{"FullType": fullType, "InputValue": inputValue, "TypeRef": typeRefSel(7)}}
+	op.Root = []sel{{Name: "__schema", Sub: tn([]sel{
+		{Name: "queryType", Sub: []sel{{Name: "name"}}},
+		{Name: "mutationType", Sub: []sel{{Name: "name"}}},
+		{Name: "subscriptionType", Sub: []sel{{Name: "name"}}},
+		{Name: "types", Sub: []sel{{Frag: "FullType"}}},
+		{Name: "directives", Sub: tn([]sel{{Name: "name"}, {Name: "description"}, {Name: "locations"}, {Name: "isRepeatable"},
+			{Name: "args", Inc: inc, IncVar: asVar, Sub: []sel{{Frag: "InputValue"}}}})},
+	})}}
+	if asVar && inc != nil {
+		op.Vars = map[string]bool{"inc": *inc}
+	}
+	return op
+}
+
+func typeQuery(names []string, inc *bool) *operation {
+	op := &operation{Frags: map[string][]sel{"TypeRef": typeRefSel(4)}}
+	for i, n := range names {
+		op.Root = append(op.Root, sel{Name: "__type", Alias: fmt.Sprintf("t%d", i), Arg: n, Sub: []sel{
+			{Name: "kind"}, {Name: "name"},
+			{Name: "fields", Inc: inc, Sub: []sel{{Name: "name"}, {Name: "isDeprecated"}, {Name: "type", Sub: []sel{{Frag: "TypeRef"}}},
+				{Name: "args", Inc: inc, Sub: []sel{{Name: "name"}, {Name: "defaultValue"}}}}},
+			{Name: "enumValues", Inc: inc, Sub: []sel{{Name: "name"}, {Name: "deprecationReason"}}},
+			{Name: "inputFields", Inc: inc, Sub: []sel{{Name: "name"}, {Name: "defaultValue"}, {Name: "type", Sub: []sel{{Frag: "TypeRef"}}}}},
+			{Name: "interfaces", Sub: []sel{{Name: "name"}}},
+			{Name: "possibleTypes", Sub: []sel{{Name: "name"}, {Name: "kind"}}},
+			{Name: "ofType", Sub: []sel{{Name: "name"}}},
+			{Name: "specifiedByURL"},
+		}})
+	}
+	return op
+}
+
+// nested aliases (response names differ from field names below the root field)
+func aliasQuery(typeName string) *operation {
+	return &operation{Frags: map[string][]sel{}, Root: []sel{
+		{Name: "__type", Alias: "t", Arg: typeName, Sub: []sel{{Name: "name", Alias: "n"}, {Name: "kind"},
+			{Name: "fields", Alias: "fs", Inc: bp(true), Sub: []sel{{Name: "name", Alias: "fieldName"}}}}},
+		{Name: "__schema", Sub: []sel{{Name: "queryType", Alias: "q", Sub: []sel{{Name: "name", Alias: "nn"}, {Name: "name"}}}}},
+	}}
+}
+
+func printSel(sb *strings.Builder, ss []sel, indent string) {
+	for _, s := range ss {
+		if s.Frag != "" {
+			sb.WriteString(indent + "..." + s.Frag + "\n")
+			continue
+		}
+		sb.WriteString(indent)
+		if s.Alias != "" {
+			sb.WriteString(s.Alias + ": ")
+		}
+		sb.WriteString(s.Name)
+		if s.Arg != "" {
+			sb.WriteString("(name: " + fmt.Sprintf("%q", s.Arg) + ")")
+		} else if s.Inc != nil {
+			if s.IncVar {
+				sb.WriteString("(includeDeprecated: $inc)")
+			} else {
+				sb.WriteString(fmt.Sprintf("(includeDeprecated: %v)", *s.Inc))
+			}
+		}
+		if len(s.Sub) > 0 {
+			sb.WriteString(" {\n")
+			printSel(sb, s.Sub, indent+"  ")
+			sb.WriteString(indent + "}")
+		}
+		sb.WriteString("\n")
+	}
+}
+
+func (op *operation) text() string {
+	var sb strings.Builder
+	sb.WriteString("query Q")
+	if op.Vars != nil {
+		sb.WriteString("($inc: Boolean)")
+	}
+	sb.WriteString(" {\n")
+	printSel(&sb, op.Root, "  ")
+	sb.WriteString("}\n")
+	for _, n := range []string{"FullType", "InputValue", "TypeRef"} {
+		if f, ok := op.Frags[n]; ok && strings.Contains(sb.String(), "..."+n) {
+			sb.WriteString("fragment " + n + " on " + fragTypes[n] + " {\n")
+			printSel(&sb, f, "  ")
+			sb.WriteString("}\n")
+		}
+	}
+	// fragments used only by other fragments
+	for _, n := range []string{"InputValue", "TypeRef"} {
+		if f, ok := op.Frags[n]; ok && !strings.Contains(sb.String(), "fragment "+n+" ") && strings.Contains(sb.String(), "..."+n) {
+			sb.WriteString("fragment " + n + " on " + fragTypes[n] + " {\n")
+			printSel(&sb, f, "  ")
+			sb.WriteString("}\n")
+		}
+	}
+	return sb.String()
+}
+
+var filtered = map[string]map[string]bool{
+	"__Type":      {"fields": true, "enumValues": true, "inputFields": true},
+	"__Field":     {"args": true},
+	"__Directive": {"args": true},
+}
+
+func (op *operation) project(v any, ss []sel, out map[string]any) {
+	obj, _ := v.(map[string]any)
+	parentType, _ := obj["__typename"].(string)
+	for _, s := range ss {
+		if s.Frag != "" {
+			op.project(v, op.Frags[s.Frag], out)
+			continue
+		}
+		key := s.Name
+		if s.Alias != "" {
+			key = s.Alias
+		}
+		val, present := obj[s.Name]
+		if !present {
+			val = nil
+		}
+		if len(s.Sub) == 0 {
+			out[key] = val
+			continue
+		}
+		switch x := val.(type) {
+		case nil:
+			out[key] = nil
+		case []any:
+			items := []any{}
+			for _, e := range x {
+				if filtered[parentType][s.Name] {
+					em, _ := e.(map[string]any)
+					dep, _ := em["isDeprecated"].(bool)
+					if dep && (s.Inc == nil || !*s.Inc) {
+						continue
+					}
+				}
+				m := map[string]any{}
+				op.project(e, s.Sub, m)
+				items = append(items, m)
+			}
+			out[key] = items
+		default:
+			m := map[string]any{}
+			op.project(x, s.Sub, m)
+			out[key] = m
+		}
+	}
+}
+
+func (op *operation) expected(data map[string]any) map[string]any {
+	out := map[string]any{}
+	schema, _ := data["__schema"].(map[string]any)
+	for _, s := range op.Root {
+		key := s.Name
+		if s.Alias != "" {
+			key = s.Alias
+		}
+		switch s.Name {
+		case "__schema":
+			m := map[string]any{}
+			op.project(schema, s.Sub, m)
+			out[key] = m
+		case "__type":
+			var found any
+			types, _ := schema["types"].([]any)
+			for _, t := range types { // Schema.TypeByName: the last type of that name
+				if tm, ok := t.(map[string]any); ok && tm["name"] == s.Arg {
+					found = t
+				}
+			}
+			if found == nil {
+				out[key] = nil
+			} else {
+				m := map[string]any{}
+				op.project(found, s.Sub, m)
+				out[key] = m
+			}
+		}
+	}
+	return out
+}
+
+func firstDiff(path string, a, b any) string {
+	if reflect.DeepEqual(a, b) {
+		return ""
+	}
+	switch x := a.(type) {
+	case map[string]any:
+		y, ok := b.(map[string]any)
+		if !ok {
+			return fmt.Sprintf("%s: engine=%T expected=%T", path, a, b)
+		}
+		for k, v := range x {
+			w, ok := y[k]
+			if !ok {
+				return fmt.Sprintf("%s.%s: only in engine", path, k)
+			}
+			if d := firstDiff(path+"."+k, v, w); d != "" {
+				return d
+			}
+		}
+		for k := range y {
+			if _, ok := x[k]; !ok {
+				return fmt.Sprintf("%s.%s: missing in engine", path, k)
+			}
+		}
+	case []any:
+		y, ok := b.([]any)
+		if !ok {
+			return fmt.Sprintf("%s: engine=list expected=%T", path, b)
+		}
+		if len(x) != len(y) {
+			names := func(l []any) string {
+				var ns []string
+				for _, e := range l {
+					if m, ok := e.(map[string]any); ok {
+						ns = append(ns, fmt.Sprint(m["name"]))
+					}
+				}
+				return strings.Join(ns, ",")
+			}
+			return fmt.Sprintf("%s: engine has %d items [%s], expected %d [%s]", path, len(x), names(x), len(y), names(y))
+		}
+		for i := range x {
+			if d := firstDiff(fmt.Sprintf("%s[%d]", path, i), x[i], y[i]); d != "" {
+				return d
+			}
+		}
+	}
+	ja, _ := json.Marshal(a)
+	jb, _ := json.Marshal(b)
+	if len(ja) > 80 {
+		ja = ja[:80]
+	}
+	if len(jb) > 80 {
+		jb = jb[:80]
+	}
+	return fmt.Sprintf("%s: engine=%s expected=%s", path, ja, jb)
+}
+
+func engineCheck(sdl string, res *result, r *common.Rand) (verdict string) {
+	defer func() {
+		if p := recover(); p != nil {
+			verdict = common.L("mismatch", common.QS(fmt.Sprintf("panic: %v", p)))
+		}
+	}()
+	schema, err := graphql.NewSchemaFromString(sdl)
+	if err != nil {
+		return common.L("skipped", common.QS("schema: "+err.Error()))
+	}
+	ctx, cancel := context.WithCancel(context.Background())
+	defer cancel()
+	eng, err := engine.NewExecutionEngine(ctx, abstractlogger.NoopLogger, engine.NewConfiguration(schema), resolve.ResolverOptions{MaxConcurrency: 8})
+	if err != nil {
+		return common.L("mismatch", common.QS("engine construction failed although the generator succeeded: "+err.Error()))
+	}
+	var data map[string]any
+	if err := json.Unmarshal(res.json, &data); err != nil {
+		return common.L("skipped", common.QS("json"))
+	}
+	// operations: the standard query (includeDeprecated true), one of its variants, and __type lookups
+	ops := []*operation{fullQuery(bp(true), false, false)}
+	variant := ""
+	switch r.Pick(4) {
+	case 0:
+		ops = append(ops, fullQuery(nil, false, true))
+		variant = "full-default"
+	case 1:
+		ops = append(ops, fullQuery(bp(false), false, false))
+		variant = "full-literal-false"
+	case 2:
+		ops = append(ops, fullQuery(bp(true), true, true))
+		variant = "full-variable-true"
+	case 3:
+		ops = append(ops, fullQuery(bp(false), true, false))
+		variant = "full-variable-false"
+	}
+	var names []string
+	types, _ := data["__schema"].(map[string]any)["types"].([]any)
+	for i := 0; i < 3 && len(types) > 0; i++ {
+		names = append(names, fmt.Sprint(types[r.Pick(len(types))].(map[string]any)["name"]))
+	}
+	names = append(names, "NoSuchType", "__Type")
+	incs := []*bool{nil, bp(true), bp(false)}
+	ops = append(ops, typeQuery(names, incs[r.Pick(3)]))
+	kinds := []string{"full", variant, "types", "alias"}
+	ops = append(ops, aliasQuery(names[0]))
+	var fails []string
+	for i, op := range ops {
+		fail := func(m string) { fails = append(fails, common.L("mismatch", common.QS("op="+kinds[i]+" "+m))) }
+		req := graphql.Request{OperationName: "Q", Query: op.text()}
+		if op.Vars != nil {
+			vb, _ := json.Marshal(op.Vars)
+			req.Variables = vb
+		}
+		w := graphql.NewEngineResultWriter()
+		if err := eng.Execute(ctx, &req, &w); err != nil {
+			fail(fmt.Sprintf("execute error: %v", err))
+			continue
+		}
+		var resp map[string]any
+		if err := json.Unmarshal(w.Bytes(), &resp); err != nil {
+			fail("response is not JSON")
+			continue
+		}
+		if e, ok := resp["errors"]; ok && e != nil {
+			eb, _ := json.Marshal(e)
+			if len(eb) > 200 {
+				eb = eb[:200]
+			}
+			fail(fmt.Sprintf("errors %s", eb))
+			continue
+		}
+		if d := firstDiff("data", resp["data"], any(op.expected(data))); d != "" {
+			fail(d)
+		}
+	}
+	if len(fails) == 0 {
+		return "ok"
+	}
+	return strings.Join(fails, " ")
+}
+
+// engineRun executes one operation text and returns the raw response (probe helper)
+func engineRun(sdl, query, vars string) string {
+	schema, err := graphql.NewSchemaFromString(sdl)
+	if err != nil {
+		return "schema: " + err.Error()
+	}
+	ctx, cancel := context.WithCancel(context.Background())
+	defer cancel()
+	eng, err := engine.NewExecutionEngine(ctx, abstractlogger.NoopLogger, engine.NewConfiguration(schema), resolve.ResolverOptions{MaxConcurrency: 8})
+	if err != nil {
+		return "engine: " + err.Error()
+	}
+	req := graphql.Request{Query: query}
+	if vars != "" {
+		req.Variables = []byte(vars)
+	}
+	w := graphql.NewEngineResultWriter()
+	if err := eng.Execute(ctx, &req, &w); err != nil {
+		return "execute: " + err.Error()
+	}
+	return w.String()
 }
